@@ -119,12 +119,12 @@ def split_resets(lines):
 def conc_part(chk, rng, thorough, wd):
     """Waker threads hammering a real TaskSet while the owner takes, inspects and discards."""
     nprog, rep = (30, 60) if thorough else (8, 25)
-    for n, nw in (((2, 2), (3, 3), (3, 2)) if thorough else ((2, 2), (3, 3))):
+    for n, nw in (((2, 2), (3, 2), (2, 3)) if thorough else ((2, 2), (3, 2))):
         progs = []
         for _ in range(nprog):
-            wk = [[rng.randrange(n) for _ in range(rng.randint(2, 5))] for _ in range(nw)]
+            wk = [[rng.randrange(n) for _ in range(rng.randint(2, 4))] for _ in range(nw)]
             ow = []
-            for _ in range(rng.randint(3, 6)):
+            for _ in range(rng.randint(2, 4)):
                 r = rng.random()
                 if r < 0.7:
                     ow.append(dict(op="take", arg=rng.choice((0, 1, 1, 2)), keep=rng.choice((0, 1, n, n))))
